@@ -27,7 +27,7 @@ PURE_GLOBALS = {"len", "min", "max", "sum", "sorted", "range", "enumerate", "int
                 "all", "any", "type", "repr", "iter", "next", "reversed", "memoryview", "divmod", "pow", "format", "hash", "id",
                 "callable", "getattr", "hasattr", "filter", "frozenset", "slice", "super", "object", "identity_decorator"}
 PURE_EXT_MODULES = {"math", "struct", "binascii", "textwrap", "string", "numbers", "functools", "hashlib", "array", "typing",
-                    "pathlib", "io", "os", "os.path", "pathlib.Path", "random"}
+                    "pathlib", "io", "os", "os.path", "pathlib.Path", "random", "collections", "itertools", "heapq", "operator", "bisect"}
 EXT_EFFECT = {"open", "copyfile", "print", "mmap", "BytesIO", "MMap"}
 
 
